@@ -1585,6 +1585,7 @@ DoTraversalAux(TraversalContext & data, DataNode & node)
                            scratchStr.Clear();
                         }
                      }
+                     else scratchStr += c;  // keep the escape char in place, since DoDirectChildLookup() is going to call RemoveEscapeChars() on this string
                      prevCharWasEscape = curCharIsEscape;
                      k++;
                   }
